@@ -369,7 +369,7 @@ impl Runner {
         }
         if self.keep_log {
             self.log.push(format!(
-                "#{} h={} t={} {} {} funds={} fault={:?} -> {} {} | digest={:016x}",
+                "#{} h={} t={} {} {} funds={} fault={:?} -> {} {} | vault={} if={} fp={} actor={} | digest={:016x}",
                 idx,
                 post.height,
                 post.time,
@@ -379,6 +379,10 @@ impl Runner {
                 step.fault,
                 if out.ok { "OK" } else if out.panicked { "PANIC" } else { "ERR" },
                 tail(&out.err, 140),
+                post.bal(&self.w.addrs.engine),
+                post.bal(&self.w.addrs.insurance_fund),
+                post.bal(&self.w.addrs.fee_pool),
+                post.bal(&actor_addr),
                 hkey(&post.dump)
             ));
         }
